@@ -434,6 +434,8 @@ def gen_cases(rng, tier):
     for c in cases:
         if c.get('shape') and not isinstance(c.get('mask'), bool) and 'hist' not in c and rng.random() < 0.2:
             c['hist'] = rng.randrange(1, 5000)
+        elif c.get('shape') and 'layout' not in c and rng.random() < 0.3:
+            c['layout'] = rng.choice(['F', 'strided', 'reversed'])
     return cases
 
 
@@ -471,6 +473,18 @@ def build(c, Pm):
         kw['drank'] = len(denom)
     if c['units']:
         kw['units'] = get_units(Pm, c['units'])
+    lay = c.get('layout')
+    if lay and isinstance(arr, np.ndarray) and arr.ndim >= 1 and arr.size:
+        # the same numbers in an array that is not C-ordered, as earlier public calls leave them (from_scalars,
+        # swap_axes, slicing with a step): seeded change C11-I wrote such arrays out in memory order
+        if lay == 'F' and arr.ndim >= 2:
+            arr = np.asfortranarray(arr)
+        elif lay == 'strided':
+            big = np.zeros(arr.shape[:-1] + (2 * arr.shape[-1],), dtype=arr.dtype)
+            big[..., ::2] = arr
+            arr = big[..., ::2]
+        elif lay == 'reversed':
+            arr = arr[::-1].copy()[::-1]
     q = cls(arr, mask, **kw)
     if c['digits'] is not None and c.get('digits_first'):
         # the derivatives are attached AFTER set_pickle_digits: they carry no digits of their own and
@@ -732,6 +746,14 @@ def compare(O, R, case, lossy=None):
             bad.append((f, (O[f], R[f])))
     if O['mask'] != R['mask']:
         bad.append(('mask', None))
+
+    def arrays_ok(o):       # the values array has shape + numer + denom, the mask is one bool or has the shape
+        return o['vshape'] == o['shape'] + o['numer'] + o['denom'] and o['mshape'] in ([], o['shape'])
+    if not arrays_ok(R):
+        bad.append(('array_shape', (R['vshape'], R['mshape'], R['shape'], R['numer'], R['denom'])))
+    for k in sorted(R['derivs']):
+        if not arrays_ok(R['derivs'][k]):
+            bad.append(('deriv_array_shape', (k, R['derivs'][k]['vshape'], R['derivs'][k]['mshape'])))
     if sorted(O['derivs']) != sorted(R['derivs']) or R['dattrs'] != sorted(R['derivs']):
         bad.append(('deriv_keys', (sorted(O['derivs']), sorted(R['derivs']), R['dattrs'])))
     if bad:
